@@ -7,6 +7,14 @@
 #include "mc_internal.h"
 #include "report.hpp"
 
+// optional race detector (rt/tsan_shim.cpp); absent in A-flavour harnesses
+void tsanshim_acquire(const void *obj) __attribute__((weak));
+void tsanshim_release(const void *obj) __attribute__((weak));
+void tsanshim_thread_create(int parent, int child) __attribute__((weak));
+void tsanshim_thread_join(int joiner, int child) __attribute__((weak));
+#define HB_ACQ(o) do { if (tsanshim_acquire) tsanshim_acquire(o); } while (0)
+#define HB_REL(o) do { if (tsanshim_release) tsanshim_release(o); } while (0)
+
 #include <algorithm>
 #include <cerrno>
 #include <climits>
@@ -730,6 +738,7 @@ int condWaitCommon(Thr *self, pthread_cond_t *c, pthread_mutex_t *m, uint64_t de
 {
   SyncObj *oc = findObj(c), *om = findObj(m);
   point(self, OP_COND_ENTER, oc, om);
+  HB_REL(m);
   RtGuard g;
   int saved = om->count;
   om->count = 0;
@@ -757,6 +766,9 @@ int condWaitCommon(Thr *self, pthread_cond_t *c, pthread_mutex_t *m, uint64_t de
   self->op = OP_NONE;
   om->owner = self->id;
   om->count = saved ? saved : 1;
+  --tl_inrt;
+  HB_ACQ(m);
+  ++tl_inrt;
   return ret;
 }
 
@@ -844,6 +856,7 @@ long futexModel(Thr *self, int *addr, int op, int val, const struct timespec *ti
     self->op = OP_NONE;
     self->deadline = 0;
     self->faddr = nullptr;
+    HB_ACQ(addr);
     if (self->signaled)
     {
       self->signaled = false;
@@ -856,6 +869,7 @@ long futexModel(Thr *self, int *addr, int op, int val, const struct timespec *ti
   {
     self->faddr = addr;
     point(self, OP_FUTEX_WAKE);
+    HB_REL(addr);
     int n = 0;
     for (int i = 0; i < S.nthr && n < val; ++i)
     {
@@ -927,6 +941,7 @@ int mcint_tid()
   return s ? s->id : -1;
 }
 int mcint_nthreads() { return S.nthr; }
+const char *mcint_thread_label(int t) { return (t >= 0 && t < S.nthr) ? S.thr[t]->label : "?"; }
 bool mcint_in_child() { return S.inChild; }
 [[noreturn]] void mcint_internal_error(const char *what) { internalError(what); }
 
@@ -1072,11 +1087,13 @@ extern "C"
         internalError("ignored (leaf) mutex found held at a lock attempt: leaf assumption broken");
       o->owner = self->id;
       o->count++;
+      HB_ACQ(m);
       return 0;
     }
     point(self, OP_LOCK, o);
     o->owner = self->id;
     o->count++;
+    HB_ACQ(m);
     return 0;
   }
   int pthread_mutex_trylock(pthread_mutex_t *m)
@@ -1098,6 +1115,7 @@ extern "C"
       return EBUSY;
     o->owner = self->id;
     o->count++;
+    HB_ACQ(m);
     return 0;
   }
   int pthread_mutex_unlock(pthread_mutex_t *m)
@@ -1124,6 +1142,7 @@ extern "C"
       point(self, OP_UNLOCK, o);
     if (o->owner != self->id)
       return EPERM;
+    HB_REL(m);
     if (--o->count <= 0)
     {
       o->count = 0;
@@ -1208,6 +1227,8 @@ extern "C"
     if (r != 0)
       internalError("real pthread_create failed");
     t->pt = *pt;
+    if (tsanshim_thread_create)
+      tsanshim_thread_create(self->id, t->id);
     return 0;
   }
   int pthread_join(pthread_t pt, void **ret)
@@ -1224,6 +1245,8 @@ extern "C"
       return real_pthread_join(pt, ret);
     self->extArg = target;
     point(self, OP_JOIN);
+    if (tsanshim_thread_join)
+      tsanshim_thread_join(self->id, target->id);
     RtGuard g;
     return real_pthread_join(pt, ret);
   }
@@ -1237,7 +1260,10 @@ extern "C"
       return real_pthread_once(once, fn);
     }
     if (*(volatile int *)once == 2) // glibc: __PTHREAD_ONCE_DONE
+    {
+      HB_ACQ(once);
       return 0;
+    }
     SyncObj *o;
     {
       RtGuard g;
@@ -1253,6 +1279,7 @@ extern "C"
     o->onceState = 1;
     o->owner = self->id;
     fn();
+    HB_REL(once);
     o->onceState = 2;
     o->owner = -1;
     *(volatile int *)once = 2;
@@ -1274,6 +1301,7 @@ extern "C"
     }
     point(self, OP_RDLOCK, o);
     o->readers++;
+    HB_ACQ(l);
     return 0;
   }
   int pthread_rwlock_wrlock(pthread_rwlock_t *l)
@@ -1291,6 +1319,7 @@ extern "C"
     }
     point(self, OP_WRLOCK, o);
     o->owner = self->id;
+    HB_ACQ(l);
     return 0;
   }
   int pthread_rwlock_tryrdlock(pthread_rwlock_t *l)
@@ -1310,6 +1339,7 @@ extern "C"
     if (o->owner != -1)
       return EBUSY;
     o->readers++;
+    HB_ACQ(l);
     return 0;
   }
   int pthread_rwlock_trywrlock(pthread_rwlock_t *l)
@@ -1329,6 +1359,7 @@ extern "C"
     if (o->owner != -1 || o->readers)
       return EBUSY;
     o->owner = self->id;
+    HB_ACQ(l);
     return 0;
   }
   int pthread_rwlock_unlock(pthread_rwlock_t *l)
@@ -1346,6 +1377,7 @@ extern "C"
     }
     if (S.pointBeforeUnlock)
       point(self, OP_UNLOCK, o);
+    HB_REL(l);
     if (o->owner == self->id)
       o->owner = -1;
     else if (o->readers > 0)
